@@ -223,7 +223,12 @@ impl std::fmt::Debug for Configuration {
 /// This enum defines different modes for generating Lua code, each with its own
 /// formatting characteristics.
 #[derive(Debug, Clone, Default, Serialize, Deserialize, PartialEq, Eq)]
-#[serde(deny_unknown_fields, rename_all = "snake_case", tag = "name")]
+#[serde(
+    deny_unknown_fields,
+    rename_all = "snake_case",
+    tag = "name",
+    from = "GeneratorParametersObject"
+)]
 pub enum GeneratorParameters {
     /// Retains the original line structure of the input code.
     #[serde(alias = "retain-lines")]
@@ -241,6 +246,34 @@ pub enum GeneratorParameters {
         #[serde(default = "get_default_column_span")]
         column_span: usize,
     },
+}
+
+/// The object form of [`GeneratorParameters`] as it is read from a configuration. `RetainLines` is a
+/// struct variant here so that `deny_unknown_fields` also rejects unknown fields next to
+/// `name: "retain_lines"` (serde ignores the content of unit variants of internally tagged enums).
+#[derive(Deserialize)]
+#[serde(deny_unknown_fields, rename_all = "snake_case", tag = "name")]
+enum GeneratorParametersObject {
+    #[serde(alias = "retain-lines")]
+    RetainLines {},
+    Dense {
+        #[serde(default = "get_default_column_span")]
+        column_span: usize,
+    },
+    Readable {
+        #[serde(default = "get_default_column_span")]
+        column_span: usize,
+    },
+}
+
+impl From<GeneratorParametersObject> for GeneratorParameters {
+    fn from(value: GeneratorParametersObject) -> Self {
+        match value {
+            GeneratorParametersObject::RetainLines {} => Self::RetainLines,
+            GeneratorParametersObject::Dense { column_span } => Self::Dense { column_span },
+            GeneratorParametersObject::Readable { column_span } => Self::Readable { column_span },
+        }
+    }
 }
 
 impl GeneratorParameters {
